@@ -59,6 +59,8 @@ def search(chk, n_cases):
                                 cutoff_type=rng.choice(["exponential", "gaussian"]), temperature=T)
         op = rng.choice([0.5 * sz, 0.5 * sx + 0.3 * sz, 0.3 * sx + 0.4 * sy, 0.5 * sy + 0.2 * sz])      # incl. complex eigenbases
         forced_storage = None
+        if it == 3:
+            method = "tebd"           # every run: a chain with recorded site subsets
         if it < 3:
             # every run: a coupling operator with a complex eigenbasis through PT-TEMPO written to a file / exported and imported, and through TEMPO
             method = ["pttempo", "pttempo", "tempo"][it]
@@ -115,7 +117,7 @@ def search(chk, n_cases):
                 states = [g.get_state()]
                 need_psd = True
             else:
-                L = rng.randint(2, 4)
+                L = rng.randint(2, 5)
                 chain = oqupy.SystemChain([2] * L)
                 for i in range(L):
                     chain.add_site_hamiltonian(i, 0.5 * sz)
@@ -124,10 +126,14 @@ def search(chk, n_cases):
                 for i in range(L - 1):
                     chain.add_nn_hamiltonian(i, 0.6 * sx, sx)
                 pt = quiet(oqupy.pt_tempo_compute, bath, 0.0, n * dt, parameters=par, progress_type="silent")
+                # single sites and site subsets (neighbours, the two ends, gapped tuples): all of them reported states
+                subsets = [(0, 1)] + ([(0, L - 1)] if L >= 3 else []) + [tuple(sorted(rng.sample(range(L), rng.randint(2, min(3, L))))) for _ in range(2)]
+                subsets = sorted(set(subsets))
+                info["recorded_subsets"] = subsets
                 p = oqupy.PtTebd(oqupy.AugmentedMPS([rho0] * L), chain, [pt] + [None] * (L - 1),
-                                 oqupy.PtTebdParameters(dt=dt, order=rng.choice([1, 2]), epsrel=eps), dynamics_sites=list(range(L)))
+                                 oqupy.PtTebdParameters(dt=dt, order=rng.choice([1, 2]), epsrel=eps), dynamics_sites=list(range(L)) + subsets)
                 res = quiet(p.compute, n, progress_type="silent")
-                states = [st for site in range(L) for st in res["dynamics"][site].states]
+                states = [st for site in list(range(L)) + subsets for st in res["dynamics"][site].states]
                 if np.abs(np.array(res["norm"]) - 1).max() > tol:
                     chk.fail("tebd-norm", f"PT-TEBD: reported norm deviates from one by {np.abs(np.array(res['norm']) - 1).max():.2e}", info)
                 need_psd = False
